@@ -5,7 +5,7 @@
 //! (2) from_str succeeds iff the string is in [+-]?digits(.digits{1,SCALE})? and its exact value
 //! (big integers) is in range, and then returns that value.
 use num_bigint::BigInt;
-use num_traits::Zero;
+use num_traits::{Signed, Zero};
 use radix_common::math::*;
 use serde_json::json;
 use std::panic::AssertUnwindSafe;
@@ -182,12 +182,123 @@ fn mutate(rng: &mut Rng, s: &str) -> String {
     b.into_iter().collect()
 }
 
+
+/// decimal text of a value given in subunits (the oracle's own printer, independent of Display)
+fn text_of(f: Fmt, v: &BigInt) -> String {
+    let neg = v < &BigInt::zero();
+    let a = if neg { -v.clone() } else { v.clone() };
+    let (q, r) = (&a / f.one(), &a % f.one());
+    let mut s = String::new();
+    if neg {
+        s.push('-');
+    }
+    s.push_str(&q.to_string());
+    if !r.is_zero() {
+        let frac = format!("{:0>w$}", r.to_string(), w = f.scale() as usize);
+        s.push('.');
+        s.push_str(frac.trim_end_matches('0'));
+    }
+    s
+}
+
+/// The deterministic family (identical for every seed): texts denoting exactly MAX, MIN, one unit inside
+/// and one unit beyond, in several spellings (plus sign, leading zeros, trailing zeros up to SCALE digits,
+/// SCALE+1 digits), the integral limits, the 19-digit chunk boundaries of the integer parser, smallest
+/// fractions; and the values to print: all boundary values of the type.
+fn text_family(f: Fmt) -> Vec<String> {
+    let mut v: Vec<String> = Vec::new();
+    let one = f.one();
+    for base in [f.max(), f.min()] {
+        for dl in -2i64..=2 {
+            let x = &base + dl; // possibly out of range: text_of prints any integer
+            let t = text_of(f, &x);
+            v.push(t.clone());
+            if !t.starts_with('-') {
+                v.push(format!("+{}", t));
+                v.push(format!("000{}", t));
+            } else {
+                v.push(format!("-000{}", &t[1..]));
+            }
+            if t.contains('.') {
+                let digits_after = t.len() - t.find('.').unwrap() - 1;
+                if digits_after < f.scale() as usize {
+                    v.push(format!("{}{}", t, "0".repeat(f.scale() as usize - digits_after))); // exactly SCALE digits
+                }
+                v.push(format!("{}{}", t, "0".repeat(f.scale() as usize + 1 - digits_after))); // SCALE+1 digits
+            }
+        }
+        // integral part of the limit and its neighbours, without and with a zero fraction
+        let ip = trunc_div(&base, &one);
+        for dl in -1i64..=1 {
+            let k = &ip + dl;
+            v.push(k.to_string());
+            v.push(format!("{}.0", k));
+            v.push(format!("{}.{}", k, "9".repeat(f.scale() as usize)));
+        }
+    }
+    // chunk boundaries of the integer parser (19 digits per chunk, base 10^19) and the word sizes
+    for n in [18usize, 19, 20, 37, 38, 39, 57, 58, 76, 77] {
+        v.push("9".repeat(n));
+        v.push(format!("1{}", "0".repeat(n)));
+        v.push(format!("-{}", "9".repeat(n)));
+        v.push(format!("{}.5", "9".repeat(n)));
+    }
+    for w in [64u32, 128, 191, 192, 255, 256] {
+        for dl in -1i64..=1 {
+            v.push((pow2(w) + dl).to_string());
+            v.push(format!("-{}", pow2(w) + dl));
+        }
+    }
+    // smallest fractions, values in (-1, 0), zero spellings
+    let s = f.scale() as usize;
+    v.push(format!("0.{}1", "0".repeat(s - 1)));
+    v.push(format!("-0.{}1", "0".repeat(s - 1)));
+    v.push(format!("0.{}1", "0".repeat(s)));
+    v.push(format!("-0.{}1", "0".repeat(s)));
+    v.push(format!("0.{}", "9".repeat(s)));
+    v.push(format!("-0.{}", "9".repeat(s)));
+    v.push(format!("0.{}", "9".repeat(s + 1)));
+    for z in ["0", "-0", "+0", "0.0", "-0.0", "00", "0.", ".0", "-0.", "+.0"] {
+        v.push(z.to_string());
+    }
+    v
+}
+
+fn text_class(f: Fmt, s: &str, out: &Out) -> Vec<String> {
+    let mut v = Vec::new();
+    if let Some(val) = grammar_value(f, s.as_bytes()) {
+        let res = if matches!(out, Out::Ok(_)) { "ok" } else { "err" };
+        for (name, lim) in [("max", f.max()), ("min", f.min())] {
+            let d = &val - &lim;
+            if d.abs() <= BigInt::from(2) {
+                v.push(format!("txt_{}_{}_{:+}_{}", f.name(), name, d, res));
+            }
+        }
+        if val.abs() == BigInt::from(1) {
+            v.push(format!("txt_{}_one_unit_{}", f.name(), res));
+        }
+    } else if s.contains('.') && s.bytes().filter(|c| *c == b'.').count() == 1 {
+        let frac = s.len() - s.find('.').unwrap() - 1;
+        if frac == f.scale() as usize + 1 && s.bytes().all(|c| c.is_ascii_digit() || c == b'.' || c == b'-' || c == b'+') {
+            v.push(format!("txt_{}_scale_plus_one_digits", f.name()));
+        }
+    }
+    let digits = s.bytes().take_while(|c| *c != b'.').filter(|c| c.is_ascii_digit()).count();
+    if [19usize, 20, 38, 39].contains(&digits) && s.bytes().all(|c| c.is_ascii_digit() || c == b'.' || c == b'-' || c == b'+') {
+        v.push(format!("txt_{}_int_digits_{}", f.name(), digits));
+    }
+    v
+}
+
+const FAMILY_FLOORS: &[(&str, u64)] = &include!("c27_family_floors.in");
+
 fn main() {
     let args = Args::parse();
     let mut report = Report::new(
         "C27",
         args.seed,
-        "print/parse round trips of values (uniform bit length, boundaries, short decimals) and from_str on grammar strings \
+        "deterministic family (every seed): texts denoting exactly MAX/MIN and +-1, +-2 units around them in several spellings (sign, leading zeros, SCALE and SCALE+1 digits), integral limits, \
+         19-digit chunk boundaries and word sizes of the integer parser, smallest fractions, zero spellings, printing of all boundary values; then random: print/parse round trips of values (uniform bit length, boundaries, short decimals) and from_str on grammar strings \
          (signs, leading zeros, 19-digit chunk boundaries, range limits +-1 in the last place, SCALE and SCALE+1 places) and mutated strings \
          (signs in odd places, several dots, non-digits, non-ASCII, empty parts); non-trivial = accepted string with a fraction, or a rejection \
          other than an empty string; distinct by text",
@@ -205,14 +316,28 @@ fn main() {
         "-57896044618658097711785492504343953926634.992332820282019728792003956564819969",
         "1.0000000000000000000", "1.000000000000000000", "1.0000000000000000000000000000000000000", "é", "1.é", "٣",
     ];
-    for i in 0..args.cases {
+    // deterministic part: (format, Some(text) to parse | None, Some(value) to print | None)
+    let mut det: Vec<(Fmt, Option<String>, Option<BigInt>)> = Vec::new();
+    for f in FMTS {
+        for t in &fixed {
+            det.push((f, Some(t.to_string()), None));
+        }
+        for t in text_family(f) {
+            det.push((f, Some(t), None));
+        }
+        for x in boundaries(f) {
+            det.push((f, None, Some(x)));
+        }
+    }
+    let ndet = det.len();
+    for i in 0..(ndet + args.cases) {
         let mut rng = root.fork(i as u64);
-        let f = if i < 2 * fixed.len() { FMTS[i % 2] } else { FMTS[rng.usize_below(2)] };
+        let f = if i < ndet { det[i].0 } else { FMTS[rng.usize_below(2)] };
         let bnd = &bnds[if f == Fmt::Dec { 0 } else { 1 }];
-        let kind = if i < 2 * fixed.len() { 9 } else { rng.below(9) };
+        let kind = if i < ndet { if det[i].2.is_some() { 0 } else { 9 } } else { rng.below(9) };
         if kind < 3 {
             // print, then parse back
-            let x = gen_value(&mut rng, f, bnd);
+            let x = if i < ndet { det[i].2.clone().unwrap() } else { gen_value(&mut rng, f, bnd) };
             let printed = print_impl(f, &x);
             report.count("op_print");
             match &printed {
@@ -227,6 +352,9 @@ fn main() {
                     if s.starts_with("-0.") {
                         report.count("print_negative_below_one");
                     }
+                    if x == f.max() || x == f.min() {
+                        report.count(&format!("print_{}_limit", f.name()));
+                    }
                     cw.push(format!("({}, TPrint {}, OPrint {})", f.coq(), cz(&x), coq_bytes(s.as_bytes())));
                 }
                 Err(_) => {
@@ -237,7 +365,7 @@ fn main() {
             continue;
         }
         let s: String = if kind == 9 {
-            fixed[i / 2].to_string()
+            det[i].1.clone().unwrap()
         } else if kind < 6 {
             gen_grammar(&mut rng, f, bnd)
         } else if kind == 6 {
@@ -259,6 +387,9 @@ fn main() {
         if !s.is_ascii() {
             report.count("non_ascii_input");
         }
+        for c in text_class(f, &s, &out) {
+            report.count(&c);
+        }
         let nontrivial = match &out {
             Out::Ok(_) => s.contains('.'),
             _ => !s.is_empty(),
@@ -276,6 +407,10 @@ fn main() {
             report.sample(json!({"format": f.name(), "text": s, "out": out.short()}));
         }
         cw.push(format!("({}, TParse {}, OParse {})", f.coq(), coq_bytes(s.as_bytes()), out.coq()));
+    }
+    report.extra.insert("deterministic_cases".into(), json!(ndet));
+    for (k, m) in FAMILY_FLOORS {
+        report.floor(k, *m);
     }
     let n = args.cases as u64;
     report.floor("parse_ok", n / 10);
